@@ -544,6 +544,11 @@ def cycle_requests(rng, spec):
             src = 'from %s import %s\nzr = %s().shared\n' % (mn, g, g)
             out.append({'kind': 'location', 'source': src, 'position': [2, len(src.split('\n')[1]) - 2], 'file': 'zqmain.py'})
         for it in m['items']:
+            if it[0] == 'lfunc':
+                src = 'import %s\nzr = %s.%s([]).\n' % (mn, mn, it[1])
+                out.append({'kind': 'assist', 'source': src, 'position': [2, len(src.split('\n')[1])], 'file': 'zqmain.py'})
+                src = 'from %s import %s\nzr = %s([]).common\n' % (mn, it[1], it[1])
+                out.append({'kind': 'location', 'source': src, 'position': [2, len(src.split('\n')[1]) - 2], 'file': 'zqmain.py'})
             if it[0] == 'class' and any(me[0] == 'nxt' for me in it[4]):
                 n = rng.choice((1, 2, 3))
                 src = 'import %s\nzr = %s.%s()%s.\n' % (mn, mn, it[1], '.nxt()' * n)
